@@ -33,6 +33,7 @@ RULE += (" One of the placeholder names has 81 characters.")
 RULE += (" Case-sensitive field-bound values (cased, contains|cased) with placeholders are included (the backend interface has no case-sensitive form for unbound values, so keywords are not).")
 RULE += (" Regular-expression flag modifiers are placed before and after expand.")
 RULE += (" A quarter of the cases uses a backend without regular-expression escaping (re_escape empty, escape character not escaped).")
+RULE += (" One case in four or so puts a value next to its look-alike in one rule: the same text with a placeholder written as escaped literal percent signs (equal plain rendering, different parts).")
 ASSUMPTIONS = [
     "vf/ref/modifiers.py defines which %name% sequences are placeholders",
     "variable values inserted into regular expressions are alphanumeric (insertion of regex "
@@ -93,7 +94,20 @@ def reference(case):
     except (rm.Reject, rm.Ambiguous):
         raise ExpectError("load")
     groups = []  # per original value: list of current alternatives (ref values)
-    for v in values:
+    src = value if isinstance(value, list) else [value]
+    for i, v in enumerate(values):
+        if v[0] == "re" and v[3] and len(src) == len(values):
+            # placeholder positions marked unambiguously (the flat pattern text may contain literal '%name%' as well)
+            marked, run = [], []
+            for ch in list(src[i]) + [None]:
+                if ch is None or ch in "*?":
+                    marked.extend("\x01" + t[1] + "\x01" if t[0] == "ph" else t[1] for t in rm._expand_run("".join(run)))
+                    run = []
+                    if ch is not None:
+                        marked.append(ch)
+                else:
+                    run.append(ch)
+            v = ("re", "".join(marked), v[2], v[3])
         groups.append([v])
     for item in case["pipeline"]:
         new_groups = []
@@ -135,12 +149,12 @@ def reference(case):
                                     if any(not isinstance(x, (str, int, float)) for x in vals):
                                         raise ExpectError("wrong variable type")
                                     reps = [str(x) for x in vals]
-                                texts = [t.replace("%" + n + "%", r, 1) for t in texts for r in reps]
+                                texts = [t.replace("\x01" + n + "\x01", r, 1) for t in texts for r in reps]
                             else:
                                 remaining.append(n)
                         for t in texts:
                             try:
-                                re.compile(t)
+                                re.compile(t.replace("\x01", "%"))
                             except re.error:
                                 raise ExpectError("invalid regex after expansion")
                             out.append(("re", t, v[2], remaining))
@@ -206,6 +220,17 @@ def placeholder_names(case):
     return names
 
 
+def literal_texts(case):
+    """The literal characters of every source value, placeholders and wildcards replaced by control characters: text like
+    '%a%' that the source spells with escaped percent signs is literal text and may appear in a query."""
+    vals = case["value"] if isinstance(case["value"], list) else [case["value"]]
+    res = []
+    for v in vals:
+        toks = rm._expand_run(v.replace("*", "\x00").replace("?", "\x00")) if "\\" not in v else rm._tokens_expand(rs.parse(v))
+        res.append("".join(t[1] if isinstance(t, tuple) and t[0] == "c" else "\x01" for t in toks))
+    return res
+
+
 def check_case(case: dict) -> Outcome:
     from sigma.exceptions import SigmaError
     from sigma.rule import SigmaRule
@@ -252,6 +277,8 @@ def check_case(case: dict) -> Outcome:
     if queries is not None:
         for q in queries:
             for n in set(names):
+                if any(f"%{n}%" in t for t in literal_texts(case)):
+                    continue  # the source itself contains this text literally; the formula comparison below decides
                 if f"%{n}%" in q:
                     out.fail(f"C17:raw-placeholder-in-query:{pos}", f"{key}: {case['value']!r} pipeline {case['pipeline']}: query {q!r} contains %{n}%")
                     return out
@@ -293,6 +320,16 @@ def cases(draw):
         return "".join(parts)
 
     value = one_value() if draw(st.booleans()) else [one_value() for _ in range(draw(st.integers(1, 3)))]
+    if draw(st.integers(0, 3)) == 0:
+        # a value and its look-alike: the same text where some placeholders are written as escaped literal percent signs
+        # (equal plain rendering, different parts), side by side in one rule
+        import re as _re
+        base = value if isinstance(value, str) else value[0]
+        names = _re.findall(r"(?<!\\)%([^%\\]+)%", base)
+        if names:
+            n = draw(st.sampled_from(names))
+            twin = base.replace("%" + n + "%", "\\%" + n + "\\%", 1 if draw(st.booleans()) else -1)
+            value = [base, twin] if draw(st.booleans()) else [twin, base]
     mods = []
     if pos == "regex":
         mods = ["re"] + draw(st.sampled_from([[], ["i"], ["i", "m"]])) + ["expand"] + draw(st.sampled_from([[], [], ["i"], ["s"], ["m", "s"]]))
